@@ -31,6 +31,7 @@ type SchedReader struct {
 	FailErr           error // the error to return
 	FailWithData      bool  // error returned together with the last bytes before FailAt
 	ContinueAfterFail bool  // hostile reader: if called again after the error, keeps delivering data
+	EOFAfterFail      bool  // reader that reports its error once: if called again, it says io.EOF
 
 	Log             []ReadEvent
 	errorReturned   bool
@@ -50,7 +51,7 @@ func (r *SchedReader) Read(p []byte) (int, error) {
 	if r.errorReturned {
 		r.ReadsAfterError++
 		if !r.ContinueAfterFail {
-			if r.FailAt >= 0 && r.Pos >= r.FailAt {
+			if r.FailAt >= 0 && r.Pos >= r.FailAt && !r.EOFAfterFail {
 				return r.record(len(p), 0, r.FailErr)
 			}
 			return r.record(len(p), 0, io.EOF)
@@ -132,8 +133,10 @@ func StreamParse(r io.Reader, sr *SchedReader, input []byte, rewrite bool) *Stre
 	p := cm.NewBlockParser(r)
 	var li lineIndex
 	if sr != nil {
-		if sr.FailAt >= 0 && sr.FailAt < len(input) && !sr.ContinueAfterFail {
-			input = input[:sr.FailAt] // what the reader actually delivers
+		if sr.FailAt >= 0 && sr.FailAt < len(input) {
+			// what the reader delivers before its error (a reader that would go on delivering
+			// if it were called again is never asked by a parser that latches the error)
+			input = input[:sr.FailAt]
 		}
 		li = newLineIndex(input)
 	}
